@@ -415,6 +415,17 @@ func fileShapes(c *vf.Ctx) []uint64 {
 
 func numLeaves(F uint64) uint64 { return (F + 63) / 64 }
 
+// formHeights: formation height per era label of part (b) on network v1-early (proof two blocks later).
+var formHeights = map[string]uint64{"era1": 2, "era2": 7, "era3": 11, "v2": 2, "era1-last": 5, "era2-first": 6, "era2-last": 9, "era3-first": 10}
+
+// eraOf strips the boundary suffix of an era label.
+func eraOf(era string) string {
+	if len(era) > 4 && era[:3] == "era" {
+		return era[:4]
+	}
+	return era
+}
+
 func proofs(c *vf.Ctx) {
 	keys := chain.NewKeys(c.Seed)
 	type job struct {
@@ -431,6 +442,13 @@ func proofs(c *vf.Ctx) {
 		jobs = append(jobs, job{"v1", "v1-early", "era2", 7, F})  // proof at height 9 (Tax<=h<StorageProof)
 		jobs = append(jobs, job{"v1", "v1-early", "era3", 11, F}) // proof at height 13
 		jobs = append(jobs, job{"v2", "v2-only", "v2", 2, F})
+	}
+	// the leaf rules change AT two heights (Tax=8, StorageProof=12): proofs in the last block of an era and in the first
+	// block of the next, for the shapes the eras treat differently (empty file, whole-leaf files) and their neighbours
+	for _, F := range []uint64{0, 1, 64, 65, 128, 192, 200} {
+		for _, e := range []string{"era1-last", "era2-first", "era2-last", "era3-first"} {
+			jobs = append(jobs, job{"v1", "v1-early", e, formHeights[e], F})
+		}
 	}
 	vf.ParallelFor(len(jobs), func(ji int) {
 		j := jobs[ji]
@@ -514,7 +532,7 @@ func pairProofs(c *vf.Ctx, base *chain.World, era string, FA, FB uint64, salt in
 		idx := w.CS.StorageProofLeafIndex(fc.Filesize, windowID, fce.ID)
 		leaf, proof := spec.FileProof(spec.FileData(int(fc.Filesize), byte(fc.Filesize%251)), int(idx))
 		n := numLeaves(fc.Filesize)
-		q := (era == "era2" && fc.Filesize > 0 && fc.Filesize%64 == 0 && idx == n-1) || (era != "era3" && fc.Filesize == 0)
+		q := (eraOf(era) == "era2" && fc.Filesize > 0 && fc.Filesize%64 == 0 && idx == n-1) || (eraOf(era) != "era3" && fc.Filesize == 0)
 		return one{types.StorageProof{ParentID: fce.ID, Leaf: leaf, Proof: proof}, q}
 	}
 	a, bb := mk(fces[0]), mk(fces[1])
@@ -602,7 +620,7 @@ func oneProof(c *vf.Ctx, base *chain.World, version, era string, F uint64, salt 
 		}
 		leaf, proof := spec.FileProof(data, int(idx))
 		acc, p := try(mk(leaf, proof))
-		quirk := (era == "era2" && F > 0 && F%64 == 0 && idx == n-1) || (era != "era3" && F == 0)
+		quirk := (eraOf(era) == "era2" && F > 0 && F%64 == 0 && idx == n-1) || (eraOf(era) != "era3" && F == 0)
 		switch {
 		case p != nil:
 			pc.What = "honest"
@@ -615,7 +633,7 @@ func oneProof(c *vf.Ctx, base *chain.World, version, era string, F uint64, salt 
 		default:
 			c.Count("proof_honest_accepted", 1)
 		}
-		if F == 0 && era == "era3" {
+		if F == 0 && eraOf(era) == "era3" {
 			return idx, true // no proof data needed: nothing to corrupt
 		}
 		corrupt := func(what string, u chain.Use) {
@@ -624,12 +642,12 @@ func oneProof(c *vf.Ctx, base *chain.World, version, era string, F uint64, salt 
 			if p != nil {
 				pc.What = what
 				fail("corrupt-panic", fmt.Sprintf("%s: %v", what, p))
-			} else if acc && !(era != "era3" && F == 0) {
+			} else if acc && !(eraOf(era) != "era3" && F == 0) {
 				// (the middle-era quirk - the whole last leaf of a file that is a multiple of 64 bytes is verified as an
 				// EMPTY leaf, so the honest proof of real data is rejected - does not make any other proof acceptable either;
 				// only the empty file before the storage-proof fork is left unasserted)
 				pc.What = what
-				fail("corrupt-accepted|"+version+"-"+era+"|"+what, "corrupted storage proof ("+what+") ACCEPTED")
+				fail("corrupt-accepted|"+version+"-"+eraOf(era)+"|"+what, "corrupted storage proof ("+what+") ACCEPTED")
 			} else if !acc {
 				c.Count("proof_corrupt_rejected", 1)
 			}
@@ -771,7 +789,7 @@ func replay(c *vf.Ctx, raw json.RawMessage) {
 			c.HarnessError("genesis: %v", p)
 			return
 		}
-		formAt := map[string]uint64{"era1": 2, "era2": 7, "era3": 11}[pc.Era]
+		formAt := formHeights[pc.Era]
 		for base.ChildHeight() < formAt {
 			b, bs := base.BuildBlock(nil, nil, chain.BlockOpts{})
 			base.Apply(b, bs)
@@ -787,7 +805,7 @@ func replay(c *vf.Ctx, raw json.RawMessage) {
 			c.HarnessError("genesis: %v", p)
 			return
 		}
-		formAt := map[string]uint64{"era1": 2, "era2": 7, "era3": 11, "v2": 2}[pc.Era]
+		formAt := formHeights[pc.Era]
 		for base.ChildHeight() < formAt {
 			b, bs := base.BuildBlock(nil, nil, chain.BlockOpts{})
 			base.Apply(b, bs)
